@@ -35,6 +35,14 @@ def run(ctx):
         # disallowed action: any(ALLOWED..) false => invalid
         g_act = CallGuard(r'Iterator::any$', 'false', argpred=lambda f, bi, t: 'ALLOWED_UPDATE_MANIFEST_ACTIONS' in T.call_term(f, bi), name='action in ALLOWED_UPDATE_MANIFEST_ACTIONS = false')
         oblig.failing_edge_obligation(ctx, 'C21-D1', fn, g_act, lambda bi, b, _s=inv: bi in _s, 'manifest.update.invalid Failure log')
+        # the actions examined are those of claim.action_assertions() (all actions assertions, created and gathered)
+        src_ok = False
+        for bi, t in fn.calls():
+            if t['fd'].endswith('Actions::from_assertion') or ('from_assertion' in t['fd'] and 'Actions' in t['f']):
+                term = T.call_term(fn, bi)
+                if re.search(r'Claim::action_assertions\(claim\)', term):
+                    src_ok = True
+        ctx.ob('C21-D1', VI, 'update-manifest action check', 'iterates Claim::action_assertions(claim)', src_ok)
         # parent_count switch: 0 => wrongParents ; >1 => invalid.  parent_count = filter(ParentOf).count()
         pc = [l for l, n in fn.varnames.items() if n == 'parent_count']
         ctx.ob('C21-D1', VI, 'parent_count', 'variable present', bool(pc))
